@@ -21,7 +21,7 @@ EXPLANATION = (
     "on room >= increment with room = bound[i] - t[i]) and convex step towards a target (t[i] + lambda*(target - t[i])). "
     "C03.b (ponding without bunds, inductive): every store to the ponding depth - initial conditions, season reset, "
     "infiltration, evaporation, transpiration - is the literal 0, or control dependent on a test of the bund switch, "
-    "or a decrease s - x control dependent on s > 0; hence without bunds the ponding stays 0. C03.c: a water-content cell "
+    "or a decrease s - x control dependent on s > x for the very x that is taken (not merely s > 0); hence without bunds the ponding stays 0. C03.c: a water-content cell "
     "that is set to a hydraulic bound (saturation, adjusted field capacity) takes the bound of the same compartment. C03.d: threshold locals feeding a store into compartment j are computed from compartment j's own hydraulic properties "
     "(layer-change idiom for the net-irrigation refill). C03.e: no per-compartment array is subscripted with a layer number. C03.g: a store to the ponding depth made with bunds present is the bund height, min(., bund height), guarded by a comparison with it, a decrease, or followed on every path by the overtopping cap. C03.h (sibling agreement): the stage-1 and stage-2 extraction loops of soil_evaporation have the same statements and tests after renaming (incl. the clamp of negative available water below the evaporation layer). C03.f: the field management "
     "in force follows the growing-season flag (in-season object when True, fallow object when False; constant propagation with distinct abstract objects). NOT decided: "
